@@ -13,7 +13,11 @@ generic iteration*: reaching the same header again ends the path (`end =
 to the function's exit.  No feasibility solving is done beyond constant
 folding and remembering the outcome of earlier tests of the same term.
 """
+import re
+
 import mirutil
+
+_IDENT = re.compile(r"(?<![\w:'])[A-Za-z_][A-Za-z0-9_]*(?![\w:])")
 
 # ---------------------------------------------------------------- terms
 # terms are nested tuples; see module docstring of rules for their reading.
@@ -58,7 +62,10 @@ PURE_TRAITS = {'dasp_frame::Frame', 'dasp_sample::Sample', 'dasp_sample::SignedS
 class Policy:
     """What to inline, what to keep as an opaque effect, what is pure."""
 
-    def __init__(self, stop=(), pure_extra=(), inline=True, max_depth=6, no_inline_prefixes=(), stop_trait_methods=()):
+    def __init__(self, stop=(), pure_extra=(), inline=True, max_depth=6, no_inline_prefixes=(), stop_trait_methods=(), inline_core=False, subst_types=False, pure_ref_values=False):
+        self.pure_ref_values = pure_ref_values  # a pure call given `&x` is a function of the value of x at the call, not of where x lives
+        self.subst_types = subst_types        # carry the type arguments of inlined generic callees into the terms
+        self.inline_core = inline_core        # see through the small core combinators whose MIR the extractor exported
         self.stop_trait_methods = set(stop_trait_methods)   # (trait, method): kept as events even when resolvable
         self.stop = set(stop)                 # callee paths (resolved or declared) never inlined
         self.pure_extra = set(pure_extra)
@@ -97,7 +104,7 @@ class Policy:
 
 
 class State:
-    __slots__ = ('store', 'events', 'conds', 'facts', 'active', 'nframes', 'havocs', 'epoch')
+    __slots__ = ('store', 'events', 'conds', 'facts', 'active', 'nframes', 'havocs', 'epoch', 'tys')
 
     def __init__(self):
         self.store = {}
@@ -108,6 +115,7 @@ class State:
         self.nframes = 0
         self.havocs = 0
         self.epoch = 0
+        self.tys = {}       # frame -> {generic parameter name: type string of the instantiation} (Policy.subst_types)
 
     def clone(self):
         s = State()
@@ -119,6 +127,7 @@ class State:
         s.nframes = self.nframes
         s.havocs = self.havocs
         s.epoch = self.epoch
+        s.tys = dict(self.tys)
         return s
 
 
@@ -134,6 +143,7 @@ class Engine:
         self.npaths = 0
         self._loops = {}
         self.discr_variants = {}
+        self.inlined_bodies = []
 
     # ------------------------------------------------------------ loops
     def loop_info(self, body):
@@ -343,13 +353,20 @@ class Engine:
             return ('assoc', u['path'], u.get('name'), u.get('self_ty') or (u['args'][0] if u['args'] else None), tuple(u['args']))
         if 'tyconst' in c:
             return ('tyconst', c['tyconst'])
-        return ('const', c.get('disp'), ty)
+        disp = c.get('disp') or ''
+        if disp.endswith('::None') and ty.startswith('core::option::Option<'):
+            return ('agg', ('adt', 'core::option::Option', 0, 'None'), ())
+        return ('const', disp, ty)
 
     def operand(self, st, frame, op):
         if op[0] in ('cp', 'mv'):
             return self.read(st, self.resolve(st, frame, op[1]))
         if op[0] == 'c':
-            return self.const(op[1])
+            v = self.const(op[1])
+            mp = st.tys.get(frame) if self.policy.subst_types else None
+            if mp and v[0] in ('assoc', 'fnitem', 'tyconst', 'const', 'promoted'):
+                v = tuple((self.subst_ty(mp, x) if isinstance(x, str) else (tuple(self.subst_ty(mp, y) if isinstance(y, str) else y for y in x) if isinstance(x, tuple) else x)) for x in v)
+            return v
         return ('unknown', str(op))
 
     # ------------------------------------------------------------ simplification
@@ -428,6 +445,8 @@ class Engine:
             if kind[0] == 'adt':
                 return ('agg', ('adt', kind[1], kind[2], kind[3]), vals)
             if kind[0] == 'closure':
+                if self.policy.subst_types and st.tys.get(frame):
+                    st.tys[('closure', kind[2])] = st.tys[frame]
                 return ('agg', ('closure', kind[1], kind[2]), vals)
             if kind[0] == 'array':
                 return ('agg', ('array',), vals)
@@ -652,7 +671,7 @@ class Engine:
             self.learn(st, d[2], t_bool(not cv[1]))
 
     def do_call(self, body, frame, t, st, depth, stack):
-        callee = t['callee']
+        callee = self.callee_types(st, frame, t['callee'])
         args = [self.operand(st, frame, a) for a in t['args']]
         dest = self.resolve(st, frame, t['dest'])
 
@@ -682,6 +701,12 @@ class Engine:
             target = self.facts.by_hash.get(res['hash'])
         if target is None and res.get('kind') is None and callee.get('trait') is None:
             target = self.facts.by_hash.get(callee['hash'])
+        if target is None and self.policy.inline_core:
+            ext = getattr(self.facts, 'extern_by_hash', {})
+            if res.get('hash') and res.get('kind') == 'item':
+                target = ext.get(res['hash'])
+            if target is None and callee.get('trait') is None:
+                target = ext.get(callee['hash'])
         # closure values called through Fn* traits
         if target is None and callee.get('trait') in ('core::ops::function::FnMut', 'core::ops::function::Fn', 'core::ops::function::FnOnce') and args:
             cv = args[0]
@@ -713,7 +738,7 @@ class Engine:
                     st.nframes += 1
                     st.store[tmp] = cargs[0]
                     cargs[0] = ('ref', tmp)
-            yield from self.inline(target, cargs, st, depth, stack, resume)
+            yield from self.inline(target, cargs, st, depth, stack, resume, tyargs=(res.get('args') if res.get('hash') == target['hash'] else callee['args']))
             return
         # opaque call: an event
         pure = self.policy.is_pure(callee)
@@ -722,16 +747,54 @@ class Engine:
         st.events.append(ev)
         k = len(st.events) - 1
         if pure:
-            ret = ('app', rpath if res else (callee.get('trait') or '') + '::' + callee['name'], tuple(args), tuple(callee['args']))
+            pargs = args
+            if self.policy.pure_ref_values:
+                # (the length of a slice is a property of the fat pointer itself, not of what it points to)
+                if rpath not in ('core::slice::<impl [T]>::len', 'core::slice::<impl [T]>::is_empty'):
+                    pargs = [('refval', self.read(st, a[1])) if a[0] == 'ref' else a for a in args]
+            ret = ('app', rpath if res else (callee.get('trait') or '') + '::' + callee['name'], tuple(pargs), tuple(callee['args']))
         else:
             ret = ('ret', k)
             self.havoc_args(st, body, t, args, k)
         ev['result'] = ret
         yield from resume(st, ret)
 
-    def inline(self, target, cargs, st, depth, stack, resume):
+    @staticmethod
+    def subst_ty(mapping, ty):
+        if not mapping or not isinstance(ty, str):
+            return ty
+        def rep(m):
+            return mapping.get(m.group(0), m.group(0))
+        return _IDENT.sub(rep, ty)
+
+    def callee_types(self, st, frame, callee):
+        """the callee record with its type arguments expressed in the root function's parameters"""
+        mp = st.tys.get(frame)
+        if not self.policy.subst_types or not mp or callee is None:
+            return callee
+        c2 = dict(callee)
+        c2['args'] = [self.subst_ty(mp, a) for a in callee['args']]
+        if c2.get('self_ty'):
+            c2['self_ty'] = self.subst_ty(mp, c2['self_ty'])
+        if callee.get('res'):
+            r2 = dict(callee['res'])
+            r2['args'] = [self.subst_ty(mp, a) for a in callee['res']['args']]
+            c2['res'] = r2
+        return c2
+
+    def inline(self, target, cargs, st, depth, stack, resume, tyargs=None):
+        if target.get('crate') != '<extern>' and not any(b is target for b in self.inlined_bodies):
+            self.inlined_bodies.append(target)
         nf = st.nframes
         st.nframes += 1
+        if self.policy.subst_types:
+            gens = [g for g in (target.get('generics') or []) if not g.startswith("'")]
+            if target['kind'] == 'Closure':
+                st.tys[nf] = st.tys.get(('closure', target['hash']), {})
+            elif tyargs is not None and len(gens) == len(tyargs):
+                st.tys[nf] = dict(zip(gens, tyargs))
+            else:
+                st.tys[nf] = {}
         for i, a in enumerate(cargs):
             st.store[(('L', nf, i + 1), ())] = a
         for st2, end, ret in self.exec(target, nf, 0, st, depth + 1, stack + (target['hash'],)):
@@ -806,6 +869,11 @@ class Engine:
             v = self.read(st, loc)
             self.write(st, loc, args[1])
             return v
+        if p == 'core::mem::swap' and args[0][0] == 'ref' and args[1][0] == 'ref':
+            a, b = self.read(st, args[0][1]), self.read(st, args[1][1])
+            self.write(st, args[0][1], b)
+            self.write(st, args[1][1], a)
+            return UNIT
         if p in ('core::option::Option::<T>::as_ref', 'core::option::Option::<T>::as_mut') and args[0][0] == 'ref':
             v = self.read(st, args[0][1])
             if v[0] == 'agg' and v[1][0] == 'adt':
